@@ -61,7 +61,8 @@ def run_check(tier, seed, replay=None):
                 sample = {"lines": e["lines"][:12]}
     for t in ("random", "sweep", "constants", "extinst-strings"):
         if tags.get(t, 0) == 0:
-            raise ToolError("vacuous run: no '%s' module was disassembled" % t)
+            if not rep.new:
+                raise ToolError("vacuous run: no '%s' module was disassembled" % t)
     rc = rep.finish()
     write_evidence("C07", tier, seed, {
         "states": n + 1, "transitions": n, "states_note": "states of the trace specification DisasmTrace (one per disassembled module)",
